@@ -126,7 +126,8 @@ func (c *verifC08) after(d net.Delivery, ok bool, err *tss.Error) {
 			// the last round needs no message: nobody is awaited any more
 			v.Observe("waitingfor-empty-after-last-round-started", got[j] == want[j])
 		} else {
-			v.Assert("waitingfor-exact", got[j] == want[j])
+			// Observe: a wrong answer here (C08) must not hide what happens afterwards (C07)
+			v.Observe("waitingfor-exact", got[j] == want[j])
 		}
 	}
 }
